@@ -29,6 +29,8 @@ def run(ctx: Context) -> None:
     ctx.rule('R14.4', "accounting: storage is preallocated for (length - 3) triangles per cell with geometry, written through one cursor, and the cursor is asserted to reach that total", floor=5)
     ctx.rule('R14.5', "vertex columns pair up: x<k>, y<k> come from triangle vertex k, v<k> is joined on exactly [x<k>, y<k>]; the vertex table is the de-duplicated coordinate list and is what the indexes refer to", floor=6)
     ctx.rule('R14.6', "ear clipping: a diagonal (i, i+2) is accepted only if it is covered by the polygon and meets the ring at its two end points only; the ear (i, i+1, i+2) is recorded and vertex i+1 removed; n-3 ears plus the final triangle", floor=6)
+    from .common import adopt_foundations as _adopt
+    _adopt(ctx, 'R14.7', ['geometry', 'topology'], floor=60)
     ctx.assume("NOT decided: containment, non-overlap and exact cover of the triangles (GEOS geometry at run time); pandas de-duplication and joins")
 
     td = ctx.func(f"{TRI}.triangulate_dataset")
